@@ -31,7 +31,9 @@ ValidPI(n, L) ==
     /\ n.layoutOK
     /\ 0 <= n.rcMin /\ n.rcMin < n.rcMax /\ n.rcMax <= L.maxRC
     /\ \A i \in 1..Len(L.builtins) :
-         LET b == L.builtins[i]  used == n.usage[i]  copies == (2^n.logTrace) \div b.rowRatio IN
+         LET b == L.builtins[i]  used == n.usage[i]
+             \* a builtin the layout instance does not use (dynamic layout: uses_x = 0) holds no instance, whatever its row ratio says
+             copies == IF "enabled" \in DOMAIN b /\ ~b.enabled THEN 0 ELSE (2^n.logTrace) \div b.rowRatio IN
          /\ used >= 0 /\ used % b.cells = 0
          /\ used \div b.cells <= copies
 
